@@ -57,7 +57,13 @@ inline Problem<DIM> gen_problem(uint64_t seed, int N, int order, int domain, boo
     Problem<DIM> p;
     N = std::max(1, N);
     p.T = gen_durations(r, N, order, domain);
-    p.t0 = r.chance(0.25) ? 0.0 : r.real(-1000.0, 1000.0);
+    {
+        double u = r.unit();
+        double span = 0.0;
+        for (double t : p.T) span += t;
+        // zero, a negative start with t = 0 inside the trajectory, or anywhere
+        p.t0 = u < 0.25 ? 0.0 : (u < 0.4 ? -span * r.unit() : r.real(-1000.0, 1000.0));
+    }
     p.by_points = by_points;
     p.tp.resize(N + 1);
     p.tp[0] = p.t0;
